@@ -27,7 +27,7 @@ def set_live_pred(cfg, lines, obs):
     return out
 
 def run(ctx):
-    ok = ctx.lean(['AmcVerif.Props.C02', 'AmcVerif.Props.C02b'], extra_modules=['AmcVerif.Bridge.VecGlueBridge', 'AmcVerif.Bridge.VecHelpersBridge'])
+    ok = ctx.lean(['AmcVerif.Props.C02', 'AmcVerif.Props.C02b', 'AmcVerif.Props.C02c'], extra_modules=['AmcVerif.Bridge.VecGlueBridge', 'AmcVerif.Bridge.VecHelpersBridge'])
     n = 50 if ctx.tier == 'quick' else 400
     if not ok:
         n *= 3
